@@ -7,6 +7,6 @@ PROPS = ('C10',)
 # safety record of C01-C04 is a C10 record as well
 _DYN = ('C01', 'C02', 'C03', 'C04')
 correspondence, search, replay = R.standard_module('C10', PROPS, {
-    'member_trace': _DYN, 'scenario:readded_address_partial_replay': _DYN, 'scenario:reelected_leader_membership_gate': _DYN,
+    'member_trace': _DYN, 'scenario:readded_address_partial_replay': _DYN, 'scenario:joiner_list_read_during_pending_change': _DYN, 'scenario:reelected_leader_membership_gate': _DYN,
     'scenario:member_rollback': _DYN, 'scenario:snapshot_members': _DYN, 'scenario:snapshot_at_membership_entry': _DYN,
     'scenario:d16': _DYN, 'scenario:d20': _DYN, 'scenario:observer_of_snapshot_installed_voter': _DYN})
